@@ -86,7 +86,7 @@ def run(chk):
     if env is None: return
     drv, impl = env
     rng = chk.rng
-    n = 150 if chk.tier == "quick" else 3000
+    n = 300 if chk.tier == "quick" else 3000
     cases = []
     for _ in range(n):
         svcs, rules = gen_tables(rng, dict(p_rules=0.8))
